@@ -658,6 +658,13 @@ func sortArray(v any) (any, error) {
 		return r, nil
 	}
 
+	if _, ok := toDecimal(a[0]); !ok {
+		return nil, &InvalidTypeError{
+			got:  reflect.TypeOf(a[0]),
+			want: "number",
+		}
+	}
+
 	valid := true
 	var invalidType reflect.Type
 	slices.SortFunc(r, func(a, b any) int {
